@@ -17,7 +17,7 @@ DEFECTS = ["end_not_after_start", "step_not_dividing", "infectious_unknown", "in
            "output_comp_unknown", "adjusted_flow_unknown", "adj_filter_unknown_strat", "adj_filter_unknown_stratum", "agg_source_unknown",
            "cum_source_unknown", "func_source_unknown", "flow_output_unknown", "flow_adj_omits", "inf_adj_omits", "split_omits", "split_negative", "split_sum",
            "second_birth", "second_age", "second_strain", "dup_strat", "dup_udeath", "dup_output", "mixing_partial", "age_partial",
-           "mixing_strain", "unequal_src_dst", "expected_count", "bad_rate", "finalized", "source_is_rejected_request"]
+           "mixing_strain", "unequal_src_dst", "expected_count", "bad_rate", "finalized", "source_is_rejected_request", "output_comp_not_in_strat"]
 
 WHERE = ["src", "dst", "src+valid_dst", "dst+valid_src"]
 
@@ -38,6 +38,9 @@ FINAL_OPS = [
     {"op": "flow", "kind": "import", "name": "late_imp", "param": {"c": "1"}, "dst": "@0", "split": False},
     {"op": "flow", "kind": "inf_freq", "name": "late_inf", "param": {"c": "1/8"}, "src": "@0", "dst": "@1"},
     {"op": "flow", "kind": "absolute", "name": "late_abs", "param": {"c": "1/8"}, "src": "@0", "dst": "@1"},
+    {"op": "flow", "kind": "inf_dens", "name": "late_infd", "param": {"c": "1/8"}, "src": "@0", "dst": "@1"},
+    {"op": "flow", "kind": "crude_birth", "name": "late_cb", "param": {"c": "1/8"}, "dst": "@0"},
+    {"op": "flow", "kind": "repl_birth", "name": "late_rb", "dst": "@0"},
     {"op": "stratify", "kind": "plain", "name": "latestrat", "strata": ["a", "b"], "comps": ["@0"]},
     {"op": "init_pop", "dist": [["@0", {"c": "5"}]]},
     {"op": "init_pop_array", "arr": "@arr"},
@@ -81,6 +84,15 @@ def inject(r, prog, defect, where=None):
         ops.insert(i, {"op": "flow", "kind": k, "name": "badflow", "param": {"c": "1/8"}, "src": a, "dst": b}); return ops, i
     if defect == "output_comp_unknown":
         ops.append({"op": "request", "name": "bad_out", "kind": "comp", "comps": ["Z"], "save": True}); return ops, len(ops) - 1
+    if defect == "output_comp_not_in_strat":
+        # an output compartment that does not exist because the NAMED compartment is not stratified by the filter's (partial) stratification
+        # (the name exists, the stratum exists — but no compartment carries both)
+        cands = [i for i in strat_idx if any(n not in ops[i]["comps"] for n in names)]
+        if not cands: return None
+        i = r.choice(cands)
+        other = r.choice([n for n in names if n not in ops[i]["comps"]])
+        ops.append({"op": "request", "name": "bad_out2", "kind": "comp", "comps": [other], "strata": [[ops[i]["name"], r.choice(ops[i]["strata"])]], "save": True})
+        return ops, len(ops) - 1
     if defect == "adjusted_flow_unknown":
         if not strat_idx: return None
         i = r.choice(strat_idx)
